@@ -436,6 +436,23 @@ func c17Requeuer(c *Check) {
 					x, y = y, x
 				}
 				if n, isC := IntConst(y); isC && n == 1 {
+					// both the parsed value (on the no-error edge) and the fallback 0 (on the parse-error edge) must be there
+					var atoi *ssa.Call
+					hasZero := false
+					for _, o := range Origins(x) {
+						if z, isZ := IntConst(o); isZ && z == 0 {
+							hasZero = true
+						}
+						if e, isE := o.(*ssa.Extract); isE && e.Index == 0 {
+							atoi, _ = e.Tuple.(*ssa.Call)
+						}
+					}
+					okFallback := false
+					if atoi != nil && hasZero {
+						_, perr := NilEdges(fn, func(v ssa.Value) bool { return IsResultOf(v, atoi, 1) })
+						okFallback = len(perr) > 0
+					}
+					c.Report(okFallback, P+".O3", "RETRIES-PARSE-ERROR-IS-ZERO", fn, s.Pos(), "Set(RetriesKey)", "a counter that does not parse (absent, malformed, out of range) counts as 0: the parse error is tested and replaced by 0")
 					okInc = AllOrigins(x, func(v ssa.Value) bool {
 						if z, isZ := IntConst(v); isZ && z == 0 {
 							return true
